@@ -363,6 +363,164 @@ def variables_one(chk, rng):
     fsutil.rmtree(top)
 
 
+class _VarsDone(Exception):
+    pass
+
+
+VALUE_CAP = 5000
+
+
+class _Exploding(Exception):
+    pass
+
+
+class _Guarded(dict):
+    """the settings table with a size limit per value (a changed evaluation must not take the harness down with it)"""
+
+    def __setitem__(self, k, v):
+        if isinstance(v, str) and len(v) > VALUE_CAP:
+            raise _Exploding(k)
+        dict.__setitem__(self, k, v)
+
+
+def explosive(table):
+    """a table whose values multiply (e.g. `set a $a$a`: 2, 4, 16, 256, 65536 ... references) exhausts the memory of the
+    implementation and of the model alike within the 16 rounds: such tables are left out"""
+    from string import Template
+    cur = dict(table)
+    for _ in range(16):
+        found = False
+        for k, v in list(cur.items()):
+            if "$" not in v:
+                continue
+            try:
+                v = Template(v).substitute(cur)
+            except (ValueError, KeyError):
+                return False
+            if len(v) > VALUE_CAP:
+                return True
+            cur[k] = v
+            found = True
+        if not found:
+            break
+    return False
+
+
+def real_substitute(sets):
+    """load a real Config from `set` lines; returns (table before evaluation in table order, ("ok", table after) | ("error", kind))
+    - the rest of Config.__init__ is cut off right after _substitute_variables() returns"""
+    top = fsutil.workdir("cfgvm")
+    p = os.path.join(top, "mirror.list")
+    with open(p, "w") as fp:
+        fp.write("".join(f"set {k} {v}\n" for k, v in sets) + "deb http://x.example/y stable main\n")
+    seen = {}
+    orig = Config._substitute_variables
+
+    def wrapped(self):
+        seen["before"] = list(self._variables.items())
+        if explosive(seen["before"]):
+            seen["after"] = ("explosive", None)
+            raise _VarsDone()
+        self._variables = _Guarded(self._variables)
+        try:
+            orig(self)
+        except _Exploding:
+            seen["after"] = ("error", "values-multiply")
+            raise _VarsDone()
+        except ValueError:
+            seen["after"] = ("error", "value")
+            raise _VarsDone()
+        except KeyError:
+            seen["after"] = ("error", "key")
+            raise _VarsDone()
+        seen["after"] = ("ok", list(self._variables.items()))
+        raise _VarsDone()
+    Config._substitute_variables = wrapped
+    try:
+        Config(Path(p), f"{top}/default-base")
+    except _VarsDone:
+        pass
+    finally:
+        Config._substitute_variables = orig
+        fsutil.rmtree(top)
+    return seen.get("before"), seen.get("after")
+
+
+# directed tables: (name, set lines)
+VARS_CORPUS = [
+    ("quirk-order-1", [("x", "$y"), ("z", "${x}foo"), ("y", "A"), ("yfoo", "B")]),     # Props/C17Vars.lean C17_vars_order_quirk
+    ("quirk-order-2", [("z", "${x}foo"), ("x", "$y"), ("y", "A"), ("yfoo", "B")]),
+    ("escape", [("a", "cost$$"), ("b", "$$base_path")]),
+    ("lone-dollar", [("a", "100$")]), ("bad-brace", [("a", "${base_path")]), ("empty-brace", [("a", "${}")]),
+    ("digit", [("a", "$1")]), ("unset", [("a", "$nope/x")]), ("cycle", [("a", "$b"), ("b", "$a")]), ("self", [("a", "x$a")]),
+    ("unset-then-invalid", [("a", "$nope $")]), ("invalid-then-unset", [("a", "$ $nope")]),
+    ("adjacent", [("a", "$b$c${b}_$c"), ("b", "B"), ("c", "C")]), ("case", [("Ab_1", "v"), ("a", "$Ab_1-${Ab_1}")]),
+    ("non-ascii", [("a", "$bé"), ("b", "B")]),
+]
+for _n in (13, 14, 15, 16):   # chains around the limit of 16 rounds, in the best and in the worst table order
+    _chain = [("c0", "L")] + [(f"c{i}", f"$c{i - 1}/{i}") for i in range(1, _n + 1)]
+    VARS_CORPUS.append((f"chain-{_n}-forward", _chain))
+    VARS_CORPUS.append((f"chain-{_n}-backward", list(reversed(_chain))))
+
+
+def gen_var_table(rng):
+    keys = rng.sample(["v0", "v1", "v2", "v3", "x", "y", "yfoo", "a_b", "A1", "base_path", "var_path", "nthreads", "cleanscript"], rng.randint(1, 6))
+    names = keys + ["base_path", "nthreads", "mirror_path"] + (["undefined"] if rng.random() < 0.1 else [])
+    out = []
+    acyclic = rng.random() < 0.6   # references only to settings defined further up (in a shuffled order of definition)
+    rank = list(keys)
+    rng.shuffle(rank)
+    for k in keys:
+        pieces = []
+        pool = ([n for n in rank[:rank.index(k)]] + ["nthreads", "defaultarch"]) if acyclic else names
+        for _ in range(rng.randint(1, 4)):
+            r = rng.random()
+            if r < 0.45:
+                pieces.append(rng.choice(["/", "a", "foo", "-", ".", "x1", "_", "/srv", "9"]))
+            elif r < 0.7:
+                pieces.append("$" + rng.choice(pool))
+            elif r < 0.93:
+                pieces.append("${" + rng.choice(pool) + "}")
+            elif r < 0.96:
+                pieces.append("$$")
+            else:
+                pieces.append(rng.choice(["$", "${", "${1a}", "$1", "${a-b}", "${}", "$}"]))
+        out.append((k, "".join(pieces)))
+    return out
+
+
+def vars_model_one(chk, sets, label):
+    """Model/Vars.lean substituteVariables vs Config._substitute_variables on the table the real parser built (defaults + set
+    lines, in table order): same final table, or the same kind of error"""
+    before, after = real_substitute(sets)
+    replay = {"variables_model": True, "sets": [list(x) for x in sets], "label": label}
+    if before is None or after is None:
+        chk.violation("variables:harness", replay, "Config did not reach _substitute_variables", no_input=True)
+        return
+    if after[0] == "explosive":
+        chk.count("variable_tables_left_out(values multiply beyond 5000 characters)")
+        return
+    m = driver().call("subst_vars", env=[[k, v] for k, v in before])
+    real = {"ok": [[k, v] for k, v in after[1]]} if after[0] == "ok" else {"error": after[1]}
+    if m != real:
+        dis = {"real": real if "error" in real else [kv for kv in real["ok"] if kv not in (m.get("ok") or [])][:4],
+               "model": m if "error" in m else [kv for kv in m["ok"] if kv not in (real.get("ok") or [])][:4]}
+        chk.violation("correspondence-variables", dict(replay, disagreement=dis, correspondence="Model/Vars.lean substituteVariables vs Config._substitute_variables"),
+                      f"{label}: real {dis['real']} model {dis['model']}", no_input=True)
+    # what the theorems promise, observed on the implementation: no `$` left, keys as before, `$`-free values kept
+    if after[0] == "ok":
+        fin = after[1]
+        if any("$" in v for _, v in fin):
+            chk.violation("variables:unresolved", replay, f"a value still contains `$`: {[kv for kv in fin if '$' in kv[1]][:2]}")
+        if [k for k, _ in fin] != [k for k, _ in before]:
+            chk.violation("variables:keys", replay, "settings added, dropped or reordered by the evaluation")
+        for (k, v), (_, v2) in zip(before, fin):
+            if "$" not in v and v2 != v:
+                chk.violation("variables:literal-changed", replay, f"{k}: {v!r} became {v2!r}")
+    chk.count("variable_tables_compared_with_Model/Vars")
+    chk.count("variable_tables_" + (after[0] if after[0] == "ok" else "error_" + after[1]))
+
+
 def nested_corpus(chk):
     """directed: two repositories whose URLs are nested, in both line orders, with a skip-clean URL below both of them (each
     must protect the path relative to itself), and one below the outer repository only"""
@@ -387,6 +545,10 @@ def run(chk, tier, rng):
     nested_corpus(chk)
     for i in range(40 if tier == "quick" else 800):
         variables_one(chk, random.Random(f"C17v-{chk.seed}-{i}"))
+    for name, sets in VARS_CORPUS:
+        vars_model_one(chk, sets, name)
+    for i in range(60 if tier == "quick" else 2500):
+        vars_model_one(chk, gen_var_table(random.Random(f"C17vm-{chk.seed}-{i}")), f"random-{i}")
     default_arch = real_config(["deb http://x.example/y stable main"])[0].default_arch
     n = 150 if tier == "quick" else 3000
     for i in range(n):
@@ -419,6 +581,12 @@ def run(chk, tier, rng):
 
 def replay(rep):
     r = rep["replay"]
+    if r.get("variables_model"):
+        before, after = real_substitute([tuple(x) for x in r["sets"]])
+        m = driver().call("subst_vars", env=[[k, v] for k, v in before])
+        print(json.dumps({"real": after, "model": m}, indent=1)[:3000])
+        real = {"ok": [[k, v] for k, v in after[1]]} if after[0] == "ok" else {"error": after[1]}
+        return 1 if m != real else 0
     lines = r.get("lines", [])
     cfg, err = real_config(lines, [r["option"]] if "option" in r else [])
     print("loads:", cfg is not None, err)
